@@ -35,18 +35,8 @@ func testdataUniverses() (map[string]*universe.NpmUniverse, error) {
 }
 
 type runner struct {
-	c       *fw.Ctx
-	shrunk  int
-	dropped int
-}
-
-// tooLarge: Go finished, but the model's fuel might not suffice.
-func tooLarge(res string) bool {
-	if !strings.HasPrefix(res, "ok ") {
-		return false
-	}
-	f := strings.Fields(res)
-	return len(f) > 2 && strings.Count(f[2], ",") >= maxEdges
+	c      *fw.Ctx
+	shrunk int
 }
 
 func features(u *universe.NpmUniverse) string {
@@ -64,12 +54,6 @@ func features(u *universe.NpmUniverse) string {
 func (r *runner) one(stream string, u *universe.NpmUniverse, table, body string, t *universe.Table, name, ver string) {
 	c := r.c
 	line := opLine(table, body, t, name, ver)
-	res := exec(strings.Fields(line)[1:])
-	if tooLarge(res) {
-		r.dropped++
-		c.Count("dropped.too-large")
-		return
-	}
 	i, res := c.Op(line)
 	feat := features(u)
 	c.Count("stream." + stream)
@@ -207,9 +191,6 @@ func run(c *fw.Ctx) {
 	// (4) per the quantifier
 	for k := 0; k < c.N(260, 24000); k++ {
 		r.all("random", universe.GenNpm(c.Rng, universe.NpmGenOpts{Aliases: k%3 == 2}), c.N(12, 0))
-	}
-	if r.dropped > 0 {
-		c.Note(fmt.Sprintf("%d resolutions dropped because the graph has more than %d edges (model fuel)", r.dropped, maxEdges))
 	}
 	if os.Getenv("C06_SAMPLES") != "" {
 		c.Note("samples requested")
